@@ -52,7 +52,7 @@ def cases(draw, prof):
                 e["t"] = [ins["start"] - 1.0]
         for q in spec["progs"]["progs"]:
             _shift_times(q["spend"], s0, end + 10, delta)
-    n_restarts = draw(st.sampled_from([1, 1, 2, 3]))
+    n_restarts = min(draw(st.sampled_from([1, 1, 2, 3])), max(1, nsteps - 1))
     idx = sorted(draw(st.lists(st.integers(1, max(1, nsteps - 1)), min_size=n_restarts, max_size=n_restarts, unique=True)))
     return {"spec": spec, "restart_at": idx, "via_spreadsheet": draw(st.sampled_from([False, False, True]))}
 
